@@ -24,8 +24,8 @@ VARIABLES entries,    \* Seq of [k: "val"|"fut"|"end"|"err", id]
           delivered,  \* Seq of item ids yielded so far (flattened batches)
           flags,      \* [aborted, failed, finished, stopped]
           cleanups,   \* number of on_abort calls (the callback that closes the source)
-          aborted     \* an external abort() has been requested
-vars == <<entries, fut, nextItem, prod, cons, held, head, delivered, flags, cleanups, aborted>>
+          extAbort     \* an external abort() has been requested
+vars == <<entries, fut, nextItem, prod, cons, held, head, delivered, flags, cleanups, extAbort>>
 
 Items == 1..MaxItems
 NoEntry == [k |-> "none", id |-> 0]
@@ -42,7 +42,7 @@ TypeOK == /\ Len(entries) <= Capacity
 Init == /\ entries = <<>> /\ fut = [i \in Items |-> "none"] /\ nextItem = 1
         /\ prod = "run" /\ cons = "get" /\ held = NoEntry /\ head = 0 /\ delivered = <<>>
         /\ flags = [aborted |-> FALSE, failed |-> FALSE, finished |-> FALSE, stopped |-> FALSE]
-        /\ cleanups = 0 /\ aborted = FALSE
+        /\ cleanups = 0 /\ extAbort = FALSE
 
 Room == Len(entries) < Capacity
 RunCleanup(c) == IF FixCleanupOnce /\ c >= 1 THEN c ELSE c + 1
@@ -55,26 +55,26 @@ Push == /\ prod = "run" /\ nextItem <= MaxItems /\ Room
              /\ entries' = Append(entries, IF early THEN Fut(nextItem) ELSE Val(nextItem))
              /\ fut' = [fut EXCEPT ![nextItem] = IF early THEN "pending" ELSE "ok"]
         /\ nextItem' = nextItem + 1
-        /\ UNCHANGED <<prod, cons, held, head, delivered, flags, cleanups, aborted>>
+        /\ UNCHANGED <<prod, cons, held, head, delivered, flags, cleanups, extAbort>>
 \* the source is exhausted: _finished, then the final entry is put (may park on a full queue)
 SourceEnd == /\ prod = "run"
              /\ prod' = "putEnd" /\ flags' = [flags EXCEPT !.finished = TRUE]
-             /\ UNCHANGED <<entries, fut, nextItem, cons, held, head, delivered, cleanups, aborted>>
+             /\ UNCHANGED <<entries, fut, nextItem, cons, held, head, delivered, cleanups, extAbort>>
 \* the source raises: _aborted (and _failed), pending item futures are cancelled and settled, the cleanup
 \* callback runs, then the failure entry is put (may park)
 SourceFail == /\ prod = "run"
               /\ prod' = "putErr" /\ flags' = [flags EXCEPT !.aborted = TRUE, !.failed = TRUE]
               /\ fut' = CancelPending(fut) /\ cleanups' = RunCleanup(cleanups)
-              /\ UNCHANGED <<entries, nextItem, cons, held, head, delivered, aborted>>
+              /\ UNCHANGED <<entries, nextItem, cons, held, head, delivered, extAbort>>
 PutFinal == /\ prod \in {"putEnd", "putErr"} /\ Room
             /\ entries' = Append(entries, IF prod = "putEnd" THEN End ELSE Err)
             /\ prod' = "done"
-            /\ UNCHANGED <<fut, nextItem, cons, held, head, delivered, flags, cleanups, aborted>>
+            /\ UNCHANGED <<fut, nextItem, cons, held, head, delivered, flags, cleanups, extAbort>>
 
 \* ---- environment: an early executed item completes -----------------------------------
 FutSettle == \E i \in Items, ok \in BOOLEAN :
                /\ fut[i] = "pending" /\ fut' = [fut EXCEPT ![i] = IF ok THEN "ok" ELSE "failed"]
-               /\ UNCHANGED <<entries, nextItem, prod, cons, held, head, delivered, flags, cleanups, aborted>>
+               /\ UNCHANGED <<entries, nextItem, prod, cons, held, head, delivered, flags, cleanups, extAbort>>
 
 \* ---- consumer: one iteration of batches() -----------------------------------------------
 \* peek-ahead after the first entry of a batch: returns [batch, rest, held, stopped]
@@ -95,18 +95,18 @@ Deliver(first, rest) ==
   /\ delivered' = delivered \o p.batch /\ entries' = p.rest /\ held' = p.held
   /\ flags' = [flags EXCEPT !.stopped = @ \/ p.stopped]
   /\ cons' = "get" /\ head' = 0
-  /\ UNCHANGED <<fut, nextItem, prod, cleanups, aborted>>
+  /\ UNCHANGED <<fut, nextItem, prod, cleanups, extAbort>>
 
 ConsumerGet ==
   /\ cons = "get" /\ CanTake
   /\ LET t == TakeHead e == t.e IN
      CASE e.k = "end" -> /\ cons' = "done" /\ flags' = [flags EXCEPT !.stopped = TRUE] /\ entries' = t.rest /\ held' = NoEntry
-                         /\ UNCHANGED <<fut, nextItem, prod, head, delivered, cleanups, aborted>>
+                         /\ UNCHANGED <<fut, nextItem, prod, head, delivered, cleanups, extAbort>>
        [] e.k = "err" -> /\ cons' = "raised" /\ entries' = t.rest /\ held' = NoEntry
-                         /\ UNCHANGED <<fut, nextItem, prod, head, delivered, flags, cleanups, aborted>>
+                         /\ UNCHANGED <<fut, nextItem, prod, head, delivered, flags, cleanups, extAbort>>
        [] e.k = "val" -> Deliver(e.id, t.rest)
        [] e.k = "fut" -> /\ cons' = "waitFut" /\ head' = e.id /\ entries' = t.rest /\ held' = NoEntry
-                         /\ UNCHANGED <<fut, nextItem, prod, delivered, flags, cleanups, aborted>>
+                         /\ UNCHANGED <<fut, nextItem, prod, delivered, flags, cleanups, extAbort>>
 
 \* the awaited head future is done
 ConsumerFutDone ==
@@ -118,14 +118,14 @@ ConsumerFutDone ==
             /\ flags' = [flags EXCEPT !.aborted = TRUE]
             /\ prod' = IF prod \in {"run", "putEnd", "putErr"} THEN "cancelled" ELSE prod
             /\ fut' = CancelPending(fut) /\ cleanups' = RunCleanup(cleanups)
-            /\ UNCHANGED <<entries, nextItem, held, delivered, aborted>>
+            /\ UNCHANGED <<entries, nextItem, held, delivered, extAbort>>
        \* the item was cancelled
        [] fut[head] = "cancelled" ->
             /\ head' = 0
-            /\ cons' = IF aborted THEN "cancelled"                       \* the whole stream was aborted from outside
+            /\ cons' = IF extAbort THEN "cancelled"                       \* the whole stream was aborted from outside
                        ELSE IF FixCancelledHead /\ flags.failed THEN "waitFail"
                        ELSE "escaped"                                      \* CancelledError escapes batches() and the pump
-            /\ UNCHANGED <<entries, fut, nextItem, prod, held, delivered, flags, cleanups, aborted>>
+            /\ UNCHANGED <<entries, fut, nextItem, prod, held, delivered, flags, cleanups, extAbort>>
 
 \* repaired design: after a cancelled head of a failed stream, discard entries until the failure entry
 ConsumerWaitFail ==
@@ -133,12 +133,12 @@ ConsumerWaitFail ==
   /\ LET e == Head(entries) IN
      /\ entries' = Tail(entries)
      /\ cons' = IF e.k = "err" THEN "raised" ELSE IF e.k = "end" THEN "done" ELSE "waitFail"
-  /\ UNCHANGED <<fut, nextItem, prod, held, head, delivered, flags, cleanups, aborted>>
+  /\ UNCHANGED <<fut, nextItem, prod, held, head, delivered, flags, cleanups, extAbort>>
 
 \* ---- abort() from outside (work queue cancel / executor abort); the pump is cancelled as well ----
 Abort ==
-  /\ ~aborted /\ cons \notin {"done", "raised", "escaped"}
-  /\ aborted' = TRUE
+  /\ ~extAbort /\ cons \notin {"done", "raised", "escaped"}
+  /\ extAbort' = TRUE
   /\ cons' = "cancelled"
   /\ IF flags.aborted THEN     \* aborted or failed before: cleanup has run; only release a parked producer
         /\ prod' = IF prod \in {"putEnd", "putErr"} THEN "cancelled" ELSE prod
